@@ -25,8 +25,8 @@ def streams(tier, seed):
     if tier == "quick":
         return [dict(tag="files-debug", count=0, seed=seed, profile="debug", extra={"files": "all"}),
                 dict(tag="files-release", count=0, seed=seed, profile="release", extra={"files": "all"}),
-                dict(tag="debug", count=9000, seed=seed, profile="debug"),
-                dict(tag="release", count=9000, seed=seed + 1000, profile="release")]
+                dict(tag="debug", count=7000, seed=seed, profile="debug"),
+                dict(tag="release", count=7000, seed=seed + 1000, profile="release")]
     out = [dict(tag="files-debug", count=0, seed=seed, profile="debug", extra={"files": "all"}),
            dict(tag="files-release", count=0, seed=seed, profile="release", extra={"files": "all"})]
     for k in range(6):
